@@ -70,6 +70,33 @@ func checkC05(c *Check) {
 		}
 	}
 	c.Obl(wired, "C05.R1", "cookie-written", P.Pos(m.RedirCookie.Pos()), "the built cookie is the one written to the answer", "the cookie built for the fresh id is not the one written to the redirect answer")
+	// every session cookie that is ever built carries a fresh id or a constant (added in round 9: a second redirect site
+	// that re-sends the presented id keeps the session the client chose)
+	if c.Anchor("C05.R1", "cookie builder function", m.CookieBuilder != nil) {
+		n := 0
+		for _, site := range P.CallersOf(m.CookieBuilder) {
+			args := site.Common().Args
+			if len(args) < 2 {
+				continue
+			}
+			n++
+			bad := ""
+			for _, l := range interOrigins(P, args[1], leafOpts{noConcat: true}, 4) {
+				l = resolveCell(stripConv(l))
+				if _, isC := constString(l); isC {
+					continue
+				}
+				if gc, _, isCall := asCall(l); isCall && isCallTo(gc, idGeneratorIfc+".GenerateSessionID") {
+					continue
+				}
+				bad = descDepth(l, 3)
+			}
+			c.Obl(bad == "", "C05.R1", "every-cookie-value-fresh-or-constant/"+nthCallKey(site), P.Pos(site.Pos()),
+				"the cookie value is a GenerateSessionID() result or a constant on every flow into this call (callers followed)",
+				"a session cookie is built around "+bad+", which is neither a freshly generated id nor a constant: an id the client presented can be handed back (session fixation)")
+		}
+		c.Obl(n >= 2, "C05.R1", "every-cookie-value-fresh-or-constant/sites", P.Pos(m.CookieBuilder.Pos()), "cookie builder call sites found", "fewer than two call sites of the cookie builder were found")
+	}
 	// remove-then-generate
 	if c.Obl(m.RedirRemove != nil && m.OldSID != nil, "C05.R1", "old-session-removed/present", P.Pos(rd.Pos()), "RemoveSession is called in the redirect helper", "the redirect helper no longer removes the presented session") {
 		okKey := sameVal(callArgs(m.RedirRemove)[1], m.OldSID)
